@@ -1,6 +1,6 @@
 (* C01: composition of the finished properties into the partial theorem for the code set
      K = {INVALID_HEADER} + HEADER_PROT_* + the lexical codes,
-   and the K1 refutation.  Cited: Props/C13 (header), Props/C14 (guard), Props/C04 (verdict / exit), Props/C11 (K1),
+   and the K1 statement (positive since the repair).  Cited: Props/C13 (header), Props/C14 (guard), Props/C04 (verdict / exit), Props/C11 (K1),
    Proofs/EmittersProofs (who can emit a code of K, from Gen/Emitters.v regenerated from the source on every run),
    Proofs/ConformingProofs (silence of the tokenizer on conforming statement lines). *)
 From NV Require Import Model.Base Model.Diag Model.Lexer Model.Errors Model.Cli Spec.CConst Spec.Conforming
@@ -56,24 +56,23 @@ Proof.
   - intros files H. now apply Props.C04.C04_exit_iff.
 Qed.
 
-(* K1, from the lexer model: the conforming statement `i = 0xb3ba;` (0xb3ba is a valid hexadecimal constant of the shape
-   Spec/CConst.shape_k1, Props/C11.C11_refuted_hex_b_digits) gets an Error-level INVALID_SUFFIX, so the file is reported
-   `Error!` and the run exits 1 *)
+(* K1 (former finding C01-K1-hex-b-digits, repaired in the source), from the lexer model: the conforming statement
+   `i = 0xb3ba;` (0xb3ba is a valid hexadecimal constant of the shape Spec/CConst.shape_k1,
+   Props/C11.C11_accepted_hex_b_digits) lexes without any diagnostic: status OK, exit 0 as far as the lexer is concerned *)
 Definition k1_line : str := s "i = 0xb3ba;".
-Definition k1_observed : bool :=
+Definition k1_silent : bool :=
   match lex nouni nouni k1_line with
   | Ok (_, xf) =>
-      existsb (fun d => str_eqb (d_name d) (s "INVALID_SUFFIX") && str_eqb (d_level d) (s "Error")) (errs xf)
-      && str_eqb (status (errs xf)) (s "Error") && Z.eqb (exit_code [mkfile (s "a.c") (errs xf)]) 1
+      negb (nonempty (errs xf)) && str_eqb (status (errs xf)) (s "OK") && Z.eqb (exit_code [mkfile (s "a.c") (errs xf)]) 0
   | _ => false
   end.
 
-Lemma refuted_K1 :
+Lemma accepted_K1 :
   shape_k1 (s "0xb3ba") = true /\ int_body (s "0xb3ba") = Some Hex /\
-  lex_one_diag (s "INVALID_SUFFIX") (s "0xb3ba") (s ";") = true /\ k1_observed = true.
+  lex_one_ok (s "CONSTANT") (s "0xb3ba") (s ";") = true /\ k1_silent = true.
 Proof.
-  destruct Props.C11.C11_refuted_hex_b_digits as (A & B & _ & D).
-  split; [exact A|]. split; [exact B|]. split; [exact D|]. vm_compute. reflexivity.
+  destruct Props.C11.C11_accepted_hex_b_digits as (A & B & C & _).
+  split; [exact A|]. split; [exact B|]. split; [exact C|]. vm_compute. reflexivity.
 Qed.
 
 (* the same line with a constant outside the K1 shape is covered by (c) *)
